@@ -13,6 +13,10 @@ host is a loopback address, an opaque host name, an opaque path segment, the num
 slashes and the string operations (`Wk`) applied to it by the code.  Equality of URL values is
 equality of the strings they stand for (the harness renders them injectively).
 
+`Handler.run` (end of the file) is the handler across MANY `Authorize` calls: a list of rounds, each
+with its own request URL, 401/403 response and world; the handler carries only its fixed
+configuration and the token source installed last.
+
 The predicates the code decides with (`scriptSchemes`, `holReject`, `validateIssuerResponse`) are
 REGENERATED from /repo (Generated/OAuthGen.lean); the specification predicates
 (`Url.httpsOrLoopback`, `Url.isScript`, `issCheck`) are written by hand here. Props.lean proves the
